@@ -99,7 +99,7 @@ def ospwc_post(a, num, result):
 # ------------------------------------------------------------------ extend_linspace
 
 contract(EXT_LIN, params=dict(a=Seq(Real, kind='arraylike'), n=Int, direction=Str, lstart=Opt(Real), rstop=Opt(Real)),
-         returns=Seq(Real))
+         returns=Seq(Real), generator='gen_extend_lin')
 
 
 def wants_left(direction):
@@ -151,7 +151,7 @@ def extlin_post(a, n, direction, lstart, rstop, result):
 
 # ------------------------------------------------------------------ extend_constant
 
-contract(EXT_CONST, params=dict(a=Seq(Real, kind='arraylike'), n=Int, direction=Str), returns=Seq(Real))
+contract(EXT_CONST, params=dict(a=Seq(Real, kind='arraylike'), n=Int, direction=Str), returns=Seq(Real), generator='gen_extend_const')
 
 
 @requires(EXT_CONST)
@@ -237,3 +237,21 @@ def sumidx_post(a, indices, result):
     return (is_ndarray(result) and len(result) == len(indices) - 1
             and forall(range(len(indices) - 1), lambda i:
                        eq(result[i], sum_range(indices[i], indices[i + 1], lambda k: a[k]))))
+
+
+# ------------------------------------------------------------------ run-time generators (bounded stand-in only)
+
+def gen_extend_lin(rnd):
+    import numpy as np
+    m = rnd.randint(1, 7)
+    a = np.cumsum([rnd.choice([0.5, 1.0, 2.0]) for _ in range(m)]) + rnd.choice([-3.0, 0.0, 2.0])
+    n = rnd.randint(1, min(4, max(1, m - 1)))
+    return dict(a=a if rnd.random() < 0.7 else a.tolist(), n=n, direction=rnd.choice(['both', 'left', 'right', 'both', 'none']),
+                lstart=rnd.choice([None, None, 0.0, -5.0, float(a[0]) - 1.5]), rstop=rnd.choice([None, None, 0.0, 20.0, float(a[-1]) + 2.5]))
+
+
+def gen_extend_const(rnd):
+    import numpy as np
+    m = rnd.randint(1, 7)
+    a = np.array([float(rnd.randint(-4, 4)) / 2 for _ in range(m)])
+    return dict(a=a if rnd.random() < 0.7 else a.tolist(), n=rnd.randint(0, 4), direction=rnd.choice(['both', 'left', 'right', 'nope']))
